@@ -13,7 +13,6 @@ import (
 	"encoding/binary"
 	"encoding/json"
 	"fmt"
-	"sort"
 	"strconv"
 	"testing"
 	"time"
@@ -644,7 +643,6 @@ func runFrame(t *testing.T, raw json.RawMessage) (common.T, common.T) {
 			semantic = append(semantic, bytesT([]byte(cid(c))))
 		}
 	}
-	_ = sort.Strings
 	input := common.L(3, common.L(bytesT([]byte(cid(k.C1))), changes))
 	obs := common.L(attrs, semantic, code)
 	return input, obs
